@@ -36,7 +36,8 @@ def element(node: AbbreviationNode, index: int, items: list, state: IndentWalkSt
     out.level += level
 
     # Do not indent top-level elements
-    if should_format(node, index, items, state):
+    formatted = should_format(node, index, items, state)
+    if formatted:
         out.push_newline(True)
 
     if node.name and (node.name != 'div' or not primary):
@@ -50,7 +51,7 @@ def element(node: AbbreviationNode, index: int, items: list, state: IndentWalkSt
         if state.options['selfClose']:
             out.push_string(state.options['selfClose'])
     else:
-        push_value(node, state)
+        push_value(node, state, formatted)
         for index, child in enumerate(node.children):
             walk_next(child, index, node.children)
 
@@ -121,7 +122,7 @@ def push_secondary_attributes(attrs: list, state: IndentWalkState):
         if after: out.push_string(after)
 
 
-def push_value(node: AbbreviationNode, state: IndentWalkState):
+def push_value(node: AbbreviationNode, state: IndentWalkState, formatted: bool=False):
     # We should either output value or add caret but for leaf nodes only (no children)
     if not node.value and node.children:
         return
@@ -134,8 +135,8 @@ def push_value(node: AbbreviationNode, state: IndentWalkState):
     if len(lines) == 1:
         if node.name or node.attributes:
             out.push(' ')
-        elif state.parent and options.get('beforeTextLine'):
-            # Text node on its own line inside element
+        elif (state.parent or formatted) and options.get('beforeTextLine'):
+            # Text node on its own line: inside element or after top-level one
             out.push(options.get('beforeTextLine'))
         push_tokens(value, state)
     else:
@@ -228,6 +229,8 @@ def should_format(node: AbbreviationNode, index: int, items: list, state: WalkSt
     # NB: text inside element goes on its own line, otherwise it will be read
     # as a part of element name or as a text of preceding sibling
     if is_snippet(node):
-        return bool(state.parent and node.value and not node.children and len(split_by_lines(node.value)) == 1)
+        # ...the same for top-level text right after an element (`br+{a}` is not `bra`)
+        inside = state.parent or not is_snippet(items[index - 1])
+        return bool(inside and node.value and not node.children and len(split_by_lines(node.value)) == 1)
 
     return True
